@@ -17,16 +17,26 @@ Definition get (l : list Z) (i : nat) : res Z :=
 Definition slice (l : list Z) (a n : nat) : res (list Z) :=
   if (a + n <=? length l)%nat then Ok (firstn n (skipn a l)) else Err PANIC.
 
+(* &l[a .. b] *)
+Definition slice_range (l : list Z) (a b : nat) : res (list Z) :=
+  if (a <=? b)%nat then slice l a (b - a) else Err PANIC.
+(* a Rust usize constant used as an index *)
+Definition ix (c : Z) : nat := Z.to_nat c.
+
 Definition u32 (x : Z) : res Z := _ <-? guard (is_u32 x) 3 ;; Ok x.
+
+(* BytesDigest::try_from: every 8-byte chunk below the (private) GOLDILOCKS_ORDER of wormhole/inputs *)
+Definition is_canon_in (x : Z) : bool := (0 <=? x) && (x <? INPUTS_GOLDILOCKS_ORDER).
 
 (* hash_u64s_to_bytes_digest: exactly 4 limbs, each below the Goldilocks order *)
 Definition digest4 (l : list Z) : res (list Z) :=
   _ <-? guard (length l =? 4)%nat 1 ;;
-  _ <-? guard (forallb is_canon l) 2 ;;
+  _ <-? guard (forallb is_canon_in l) 2 ;;
   Ok l.
 
 Definition get_u32 (l : list Z) (i : nat) : res Z := x <-? get l i ;; u32 x.
 Definition get_digest (l : list Z) (a : nat) : res (list Z) := s <-? slice l a 4 ;; digest4 s.
+Definition get_digest_range (l : list Z) (a b : nat) : res (list Z) := s <-? slice_range l a b ;; digest4 s.
 
 (* ---------------------------------------------------------------- proof counts (C29) *)
 
@@ -76,6 +86,33 @@ Definition try_pi_len (m n : Z) : option Z :=
 (* the mathematically intended length, no machine arithmetic *)
 Definition pi_len_exact (m n : Z) : Z := 12 + m * (2 * n) * 5 + m * n * 4.
 
+(* private_batch/circuit/constants.rs  aggregated_output::*  (unchecked usize arithmetic: wraps in release) *)
+Definition pr_exit_slots_count (n : Z) : Z := wrap64 (n * 2).
+Definition pr_nullifiers_count (n : Z) : Z := n.
+Definition pr_exit_slots_start : Z := PR_OUT_HEADER_LEN.
+Definition pr_nullifiers_start (n : Z) : Z :=
+  wrap64 (PR_OUT_HEADER_LEN + wrap64 (pr_exit_slots_count n * PR_OUT_EXIT_SLOT_LEN)).
+Definition pr_pi_len (n : Z) : Z := wrap64 (wrap64 (PR_LEAF_PI_LEN * n) + 8).
+
+(* public_batch/circuit/constants.rs *)
+Definition pu_total_exit_slots (m n : Z) : Z := wrap64 (m * pr_exit_slots_count n).
+Definition pu_total_nullifiers (m n : Z) : Z := wrap64 (m * pr_nullifiers_count n).
+Definition pu_exit_slots_start : Z := PU_HEADER_LEN.
+Definition pu_nullifiers_start (m n : Z) : Z :=
+  wrap64 (PU_HEADER_LEN + wrap64 (pu_total_exit_slots m n * PR_OUT_EXIT_SLOT_LEN)).
+Definition pu_pi_len (m n : Z) : Z :=
+  wrap64 (wrap64 (PU_HEADER_LEN + wrap64 (pu_total_exit_slots m n * PR_OUT_EXIT_SLOT_LEN))
+          + wrap64 (pu_total_nullifiers m n * 4)).
+
+(* CircuitBinsConfig::validate - the accepted set of (num_leaf_proofs, num_private_batch_proofs);
+   this is also what CircuitBinsConfig::new and ::load accept (the JSON text is not modelled) *)
+Definition config_accepts (num_leaf : Z) (num_private_batch : option Z) : bool :=
+  is_ok (validate_proof_count num_leaf) &&
+  match num_private_batch with None => true | Some n => is_ok (validate_proof_count n) end.
+
+(* every entry point that takes per-layer counts: accepted iff each count validates *)
+Definition counts_accept (cs : list Z) : bool := forallb (fun c => is_ok (validate_proof_count c)) cs.
+
 (* ---------------------------------------------------------------- leaf (21 felts) *)
 
 Record LeafPI := mkLeafPI {
@@ -84,38 +121,41 @@ Record LeafPI := mkLeafPI {
 
 Definition parse_leaf_u64 (pis : list Z) : res LeafPI :=
   _ <-? guard (zlen pis =? LEAF_PI_LEN) 10 ;;
-  a <-? get_u32 pis 0 ;;
-  o1 <-? get_u32 pis 1 ;;
-  o2 <-? get_u32 pis 2 ;;
-  fee <-? get_u32 pis 3 ;;
-  nl <-? get_digest pis 4 ;;
-  e1 <-? get_digest pis 8 ;;
-  e2 <-? get_digest pis 12 ;;
-  bh <-? get_digest pis 16 ;;
-  bn <-? get_u32 pis 20 ;;
+  a <-? get_u32 pis (ix IDX_ASSET_ID) ;;
+  o1 <-? get_u32 pis (ix IDX_OUTPUT_AMOUNT_1) ;;
+  o2 <-? get_u32 pis (ix IDX_OUTPUT_AMOUNT_2) ;;
+  fee <-? get_u32 pis (ix IDX_VOLUME_FEE_BPS) ;;
+  nl <-? get_digest_range pis (ix IDX_NULLIFIER_START) (ix IDX_NULLIFIER_END) ;;
+  e1 <-? get_digest_range pis (ix IDX_EXIT_1_START) (ix IDX_EXIT_1_END) ;;
+  e2 <-? get_digest_range pis (ix IDX_EXIT_2_START) (ix IDX_EXIT_2_END) ;;
+  bh <-? get_digest_range pis (ix IDX_BLOCK_HASH_START) (ix IDX_BLOCK_HASH_END) ;;
+  bn <-? get_u32 pis (ix IDX_BLOCK_NUMBER) ;;
   Ok (mkLeafPI a o1 o2 fee nl e1 e2 bh bn).
 
-(* GoldilocksField::to_canonical_u64 of a raw (possibly non-canonical) inner u64 *)
-Definition to_canonical (raw : Z) : Z := if p <=? raw then raw - p else raw.
+(* GoldilocksField::to_canonical_u64 of a raw (possibly non-canonical) inner u64: one conditional
+   subtraction of the plonky2 field order *)
+Definition to_canonical (raw : Z) : Z := if FIELD_ORDER <=? raw then raw - FIELD_ORDER else raw.
 
 (* try_4_felts_to_bytes on canonical values: only the length can fail *)
 Definition felts4 (l : list Z) : res (list Z) :=
   _ <-? guard (length l =? 4)%nat 1 ;; Ok l.
 Definition get_felts4 (l : list Z) (a : nat) : res (list Z) := s <-? slice l a 4 ;; felts4 s.
+Definition get_felts4_range (l : list Z) (a b : nat) : res (list Z) := s <-? slice_range l a b ;; felts4 s.
 
-Definition parse_leaf_felts (raw : list Z) : res LeafPI :=
-  let pis := map to_canonical raw in
+(* the felt-based leaf parser, on the canonical values of its felts *)
+Definition parse_leaf_canon (pis : list Z) : res LeafPI :=
   _ <-? guard (zlen pis =? LEAF_PI_LEN) 10 ;;
-  a <-? get_u32 pis 0 ;;
-  o1 <-? get_u32 pis 1 ;;
-  o2 <-? get_u32 pis 2 ;;
-  fee <-? get_u32 pis 3 ;;
-  nl <-? get_felts4 pis 4 ;;
-  bh <-? get_felts4 pis 16 ;;
-  e1 <-? get_felts4 pis 8 ;;
-  e2 <-? get_felts4 pis 12 ;;
-  bn <-? get_u32 pis 20 ;;
+  a <-? get_u32 pis (ix IDX_ASSET_ID) ;;
+  o1 <-? get_u32 pis (ix IDX_OUTPUT_AMOUNT_1) ;;
+  o2 <-? get_u32 pis (ix IDX_OUTPUT_AMOUNT_2) ;;
+  fee <-? get_u32 pis (ix IDX_VOLUME_FEE_BPS) ;;
+  nl <-? get_felts4_range pis (ix IDX_NULLIFIER_START) (ix IDX_NULLIFIER_END) ;;
+  bh <-? get_felts4_range pis (ix IDX_BLOCK_HASH_START) (ix IDX_BLOCK_HASH_END) ;;
+  e1 <-? get_felts4_range pis (ix IDX_EXIT_1_START) (ix IDX_EXIT_1_END) ;;
+  e2 <-? get_felts4_range pis (ix IDX_EXIT_2_START) (ix IDX_EXIT_2_END) ;;
+  bn <-? get_u32 pis (ix IDX_BLOCK_NUMBER) ;;
   Ok (mkLeafPI a o1 o2 fee nl e1 e2 bh bn).
+Definition parse_leaf_felts (raw : list Z) : res LeafPI := parse_leaf_canon (map to_canonical raw).
 
 Definition serialize_leaf (s : LeafPI) : list Z :=
   [l_asset s; l_out1 s; l_out2 s; l_fee s] ++ l_null s ++ l_exit1 s ++ l_exit2 s ++ l_bh s ++ [l_bn s].
@@ -174,8 +214,7 @@ Definition felt_slot (chunk : list Z) : res Slot :=
   a <-? get_felts4 chunk 1 ;;
   Ok (mkSlot s a).
 
-Definition parse_priv_felts (raw : list Z) : res PrivPI :=
-  let pis := map to_canonical raw in
+Definition parse_priv_canon (pis : list Z) : res PrivPI :=
   let len := length pis in
   _ <-? guard (8 <=? len)%nat 20 ;;
   let payload := (len - 8)%nat in
@@ -192,6 +231,7 @@ Definition parse_priv_felts (raw : list Z) : res PrivPI :=
   slots <-? mapM felt_slot (firstn (n * 2) (chunks 5 (skipn 8 pis))) ;;
   nulls <-? mapM felts4 (firstn n (chunks 4 (skipn (8 + n * 2 * 5) pis))) ;;
   Ok (mkPrivPI nes asset fee bh bn slots nulls).
+Definition parse_priv_felts (raw : list Z) : res PrivPI := parse_priv_canon (map to_canonical raw).
 
 Definition flat_slot (s : Slot) : list Z := s_sum s :: s_account s.
 Definition serialize_priv (s : PrivPI) (padding : list Z) : list Z :=
@@ -235,18 +275,18 @@ Definition parse_pub_u64 (pis : list Z) (m n : Z) : res PubPI :=
     | None => Err 52
     | Some total =>
       _ <-? guard (is_u32 total) 53 ;;
-      addr <-? get_digest pis 0 ;;
+      addr <-? get_digest_range pis 0 (ix PUBLIC_AGGREGATOR_ADDRESS_LEN) ;;
       asset <-? get_u32 pis 4 ;;
       fee <-? get_u32 pis 5 ;;
       bh <-? get_digest pis 6 ;;
       bn <-? get_u32 pis 10 ;;
       tes <-? get_u32 pis 11 ;;
       _ <-? guard (tes =? total) 54 ;;
-      slots <-? read_slots_unchecked pis 12 (Z.to_nat total) ;;
+      slots <-? read_slots_unchecked pis (ix PUBLIC_HEADER_LEN) (Z.to_nat total) ;;
       match checked_mul m n with
       | None => Err 55
       | Some tn =>
-        nulls <-? read_digests_unchecked pis (12 + Z.to_nat total * 5) (Z.to_nat tn) ;;
+        nulls <-? read_digests_unchecked pis (ix PUBLIC_HEADER_LEN + Z.to_nat total * 5) (Z.to_nat tn) ;;
         Ok (mkPubPI addr asset fee bh bn tes slots nulls)
       end
     end
@@ -282,4 +322,15 @@ Definition dispatch (fid : Z) (args : list (list Z)) : list Z :=
   else if fid =? 2901 then enc_res (fun _ => []) (validate_proof_count (arg args 0 0))
   else if fid =? 2902 then enc_opt (try_pi_len (arg args 0 0) (arg args 0 1))
   else if fid =? 2903 then [pi_len_wrapping (arg args 0 0) (arg args 0 1)]
+  else if fid =? 2904 then [pr_exit_slots_count (arg args 0 0); pr_nullifiers_count (arg args 0 0); pr_exit_slots_start;
+                            pr_nullifiers_start (arg args 0 0); pr_pi_len (arg args 0 0)]
+  else if fid =? 2905 then [pu_total_exit_slots (arg args 0 0) (arg args 0 1); pu_total_nullifiers (arg args 0 0) (arg args 0 1);
+                            pu_exit_slots_start; pu_nullifiers_start (arg args 0 0) (arg args 0 1);
+                            pu_pi_len (arg args 0 0) (arg args 0 1)]
+  (* 2910: an entry point taking the counts of segment 1 (segment 0 = entry-point id, ignored by the model) *)
+  else if fid =? 2910 then [if counts_accept (seg args 1) then 1 else 0]
+  (* 2911: config file round trip (num_leaf; [] | [num_private_batch]; variant): the loaded values, or rejected *)
+  else if fid =? 2911 then (if config_accepts (arg args 0 0)
+                                  (match seg args 1 with [] => None | x :: _ => Some x end)
+                            then 1 :: arg args 0 0 :: seg args 1 else [0])
   else [-2].
